@@ -174,7 +174,7 @@ def _c12():
                              "server_plain", "server_pooled", "server_pooled-user", "family_unix", "family_tcp",
                              "two_methods_executing_at_once", "shutdown_with_request_in_flight", "invalid_body_sent",
                              "client_died_mid_body", "client_aborted_connection", "shared_request_and_notification_pool",
-                             "second_server_closed_while_first_serves", "abstract_unix_address"])
+                             "second_server_closed_while_first_serves", "abstract_unix_address", "server_of_other_family_alive"])
 
     return run
 
@@ -325,7 +325,8 @@ def _c17():
                          "the 'raw-utf8' back-end stands for the optional JSON libraries jsonlib can select (only the standard json module is installed)",
                          "framing, URL and scheme clauses are functions of the input; the simulator contributes the wire observation point, segmentation and the chunk knob"],
             real_components=REAL_CLI + ["jsonrpclib.SimpleJSONRPCServer do_POST / CGI handler - real code"], stub_components=STUB_CLI,
-            required_probes=["mode_client", "mode_server", "mode_cgi", "mode_scheme", "backend_raw_utf8", "encoding_gzip", "encoding_chunked",
+            required_probes=["mode_client", "mode_server", "mode_cgi", "mode_scheme", "backend_raw_utf8", "encoding_gzip", "encoding_gzip-multi",
+                             "encoding_chunked", "unbuffered_request_stream",
                              "multibyte_response_beyond_first_read", "multibyte_request_with_small_read_chunk", "whitespace_only_read_block", "earlier_exchange_cut_mid_body", "query_string",
                              "percent_escape_in_path", "family_unix", "short_reads"])
 
